@@ -648,10 +648,10 @@ if sys.argv[2] != "nunavut_support" and not sys.argv[1].endswith("__init__.py"):
             try:
                 f()
                 called += 1
-            except (ImportError, NameError, SyntaxError):
+            except ImportError:          # incl. ModuleNotFoundError: the only failures of a CALL that are C06's (a lazy import executed)
                 raise
-            except Exception as ex:
-                print("C06-RUNTIME-NOTE %s.%s: %s" % (c.__qualname__, name, type(ex).__name__))
+            except Exception as ex:      # anything else is a run-time defect of the generated code, owned by other properties: recorded only
+                print("C06-RUNTIME-NOTE %s %s.%s: %s" % (type(ex).__name__, c.__qualname__, name, str(ex)[:120].replace("\n", " ")))
     print("C06-RUNTIME-NOTE called %d" % called)
 '''
 
@@ -913,8 +913,13 @@ def judge(j: Job, builder: Builder, live: typing.Set[str], stats: dict) -> typin
     if j.lang == 'py':
         notes = [l for l in out.splitlines() if l.startswith('C06-RUNTIME-NOTE')]
         for l in notes:
-            k = 'py_entry_points_called' if ' called ' in l else 'py_runtime_notes'
-            stats[k] = stats.get(k, 0) + (int(l.rsplit(' ', 1)[1]) if ' called ' in l else 1)
+            if l.startswith('C06-RUNTIME-NOTE called '):
+                stats['py_entry_points_called'] = stats.get('py_entry_points_called', 0) + int(l.rsplit(' ', 1)[1])
+            else:
+                typ = l.split(' ')[1]
+                ce = stats.setdefault('call_exceptions', {})
+                ent = ce.setdefault(typ, {'count': 0, 'example': '%s: %s' % (j.rel, l[len('C06-RUNTIME-NOTE '):])})
+                ent['count'] += 1
         out = '\n'.join(l for l in out.splitlines() if not l.startswith('C06-RUNTIME-NOTE'))
     if rc == 0 and not out.strip():
         return None
@@ -1182,6 +1187,8 @@ def main(chk: core.Check, replay: typing.Optional[str] = None) -> int:
     stats['reserved_patterns_total'] = len(cov)
     stats['hostile_names_used'] = len(names)
     stats['flags'] = builder.flag_source
+    stats['call_exceptions'] = stats['known_finding_instances'].pop('call_exceptions', {})
+    stats['py_entry_points_called'] = stats['known_finding_instances'].pop('py_entry_points_called', 0)
     stats['wall_breakdown_s'] = {'coq_incl_lock_wait': round(_t_coq, 1), 'extract_probe_generate_model': round(_t_gen, 1),
                                  'compile_import': round(_time.time() - _t0 - _t_coq - _t_gen, 1)}
     stats['language_options'] = opt_info
